@@ -192,14 +192,21 @@ def case_sub(cs):
     algos.Rebalance()(root)
     amount = tw * V - vch
     cnt = {}
+    got = {}
     for e in ins.EV[mark:]:
         if e["k"] == "alloc" and e["sec"].parent is ch:
-            exp = amount * wbefore[e["sec"].full_name]
-            common.bump(cnt, "sub_spread_evals")
-            if not abs(e["amount"] - exp) <= 1e-9 * (1 + abs(exp) + abs(amount)):
-                return common.result(common.VIOL, sig=["sub", integer], nt=True, cnt=cnt, mech="c06_sub_spread",
-                                     witness={"case_seed": cs, "child": e["sec"].full_name, "allocated": e["amount"], "expected": exp, "amount_to_sub": amount,
-                                              "weight_at_entry": wbefore[e["sec"].full_name]})
+            got.setdefault(e["sec"].full_name, []).append(e["amount"])
+    for name, wb in wbefore.items():
+        if wb == 0:
+            continue
+        exp = amount * wb
+        common.bump(cnt, "sub_spread_evals")
+        if abs(exp) <= 1e-9:
+            continue
+        amts = got.get(name, [])
+        if len(amts) != 1 or not abs(amts[0] - exp) <= 1e-9 * (1 + abs(exp) + abs(amount)):
+            return common.result(common.VIOL, sig=["sub", integer], nt=True, cnt=cnt, mech="c06_sub_spread",
+                                 witness={"case_seed": cs, "child": name, "allocated": amts, "expected": exp, "amount_to_sub": amount, "weight_at_entry": wb})
     return common.result(common.HELD, sig=["sub", integer, cs % 500], nt=True, cnt=cnt, sample={"sub_target_weight": tw, "weights_at_entry": wbefore})
 
 
